@@ -142,6 +142,8 @@ func (g *Gateway) Close() {
 		g.Server.Close()
 	}
 	g.Ctrl.DeleteAll()
+	// stops the sync queue's goroutines and cancels the controller context (thousands of gateways are built per run)
+	g.Ctrl.VerifShutdown()
 }
 
 // SyncResult is what one delivery to the controller returned.
